@@ -26,6 +26,14 @@ def h_step(P, kinds, shape, props, L=2, hibernation=False, generations=2, mech="
         from pyhms.stop_conditions import MetaepochLimit
         for i, l in enumerate(w.lscs):
             l.inner = MetaepochLimit(P.int(f"lsc_limit{i}", 0, 5))
+    elif lsc == "AllChildrenStopped":
+        from pyhms.stop_conditions import AllChildrenStopped
+        for l in w.lscs:
+            l.inner = AllChildrenStopped()
+    elif lsc == "FitnessSteadiness":
+        from pyhms.stop_conditions import FitnessSteadiness
+        for i, l in enumerate(w.lscs):
+            l.inner = FitnessSteadiness(max_deviation=[0.5, 0.05, 5.0][i % 3], n_metaepochs=1 + i % 2)
     height = len(tree.levels)
 
     # ---- obligations evaluated at every consultation of the global stop condition
@@ -385,6 +393,10 @@ def tree_cases(prop, tier, hibernation_values=(False,), extra=None):
         shape = [[0, 0]] if len(kinds) == 2 else [[0], [0]]
         add(f"step.{'-'.join(kinds)}.lsc-metaepochlimit", kinds=list(kinds), shape=shape, generations=2, L=2, hibernation=hibernation_values[0],
             lsc="MetaepochLimit:sym")
+    add("step.ea-ea-cma.lsc-allchildrenstopped", kinds=["ea", "ea", "cma"], shape=[[0, 0], [0]], generations=1, L=2, hibernation=hibernation_values[0],
+        lsc="AllChildrenStopped")
+    add("step.de-shade.lsc-fitnesssteadiness", kinds=["de", "shade"], shape=[[0, 0]], generations=2, L=2, hibernation=hibernation_values[0],
+        lsc="FitnessSteadiness", warm=2)
     # more than two generations per metaepoch
     for kinds in (("de", "cma"), ("ea", "cma"), ("shade", "cma")):
         add(f"step.{'-'.join(kinds)}.g3", kinds=list(kinds), shape=[[0]], generations=3, L=2, hibernation=hibernation_values[0])
